@@ -463,6 +463,7 @@ class Tensor(object):
     def unsqueeze(self, d): return unsqueeze(self, d)
     def squeeze(self, d=None): return squeeze(self, d)
     def expand(self, *shape): return expand(self, *shape)
+    def expand_as(self, o): return expand(self, *o._shape)
     def clamp(self, min=None, max=None): return clamp(self, min=min, max=max)
     def dot(self, o): return dot(self, o)
 
@@ -1440,7 +1441,8 @@ def is_tensor(a):
 
 def allclose(a, b, rtol=1e-5, atol=1e-8):
     key = ("allclose", _opq_key(a), _opq_key(b), _opq_key(rtol), _opq_key(atol))
-    return SBool(z3.Bool("allclose<%d>" % _key_id(key)))
+    # torch.allclose returns a Python bool: decide it here (forks)
+    return ctx().branch(z3.Bool("allclose<%d>" % _key_id(key)))
 
 
 def _torch_abs(a):
